@@ -1,8 +1,454 @@
-//! stub — to be implemented
-use crate::common::{Ctx, Report};
+//! C06 — applying the computed difference always reaches the target configuration.
+//!
+//! Direct lab on `ConfigState::{diff, dispatch}`. For reachable pairs (A, B) — B obtained from A
+//! by mutations biased to the keys `diff` joins on, or built independently — every command of
+//! `A.diff(&B)` is dispatched onto a clone of A: each must be accepted, the result must equal B
+//! after dropping empty `Vec`/`HashMap` buckets on both sides, `result.diff(&B)` and `A.diff(&A)`
+//! must be empty. Both directions of every pair are checked.
 
-pub fn run(_ctx: &Ctx) -> Report {
-    let mut rep = Report::new("exploration", "not implemented");
-    rep.broken("check not implemented yet");
+use serde_json::{Value, json};
+use sozu_command_lib::{proto::command::Request, state::ConfigState};
+
+use crate::{
+    c05_roundtrip::{
+        StdoutGag,
+        cgen::{G, Op, ops_json, req_json, verb},
+        cmp::{Mode, compare, flatten_map, object_count, state_sizes},
+        cops::{Cmd, apply, extend_history, fixtures, gen_op, scenario, SCENARIOS},
+        DIRECTED_BASE, count_ops, replay_cases,
+    },
+    common::{Ctx, Report, Rng, guard, par_cases},
+};
+
+fn has_id_twins(s: &ConfigState) -> bool {
+    s.backends.values().any(|v| {
+        v.iter().enumerate().any(|(i, b)| v[i + 1..].iter().any(|o| o.backend_id == b.backend_id && o.address != b.address))
+    })
+}
+
+fn has_tcp_twins(s: &ConfigState) -> bool {
+    s.tcp_fronts.values().any(|v| v.iter().enumerate().any(|(i, f)| v[i + 1..].iter().any(|o| o.address == f.address)))
+        || s.udp_fronts.values().any(|v| v.iter().enumerate().any(|(i, f)| v[i + 1..].iter().any(|o| o.address == f.address)))
+}
+
+fn len_bucket(n: usize) -> &'static str {
+    match n {
+        0 => "0",
+        1..=3 => "1-3",
+        4..=10 => "4-10",
+        11..=30 => "11-30",
+        _ => "31+",
+    }
+}
+
+struct Pair<'a> {
+    case: u64,
+    kind: &'static str,
+    direction: &'static str,
+    history_a: &'a [Op],
+    mutation: &'a [Op],
+}
+
+fn witness(ctx: &Ctx, p: &Pair, a: &ConfigState, b: &ConfigState, diff: &[Request], extra: Value) -> Value {
+    json!({"case": p.case, "seed": ctx.seed, "pair_kind": p.kind, "direction": p.direction,
+        "detail": extra,
+        "diff": diff.iter().map(req_json).collect::<Vec<_>>(),
+        "sizes_from": state_sizes(a), "sizes_to": state_sizes(b),
+        "mutation_or_second_history": ops_json(p.mutation),
+        "history_of_first_state": ops_json(p.history_a)})
+}
+
+/// observe which of the statement's named situations the pair realises
+fn classify_pair(rep: &mut Report, a: &ConfigState, b: &ConfigState) {
+    if has_id_twins(a) || has_id_twins(b) {
+        rep.obs("pairs_with_backends_sharing_an_id", 1);
+        if a.backends != b.backends {
+            rep.obs("pairs_with_backends_sharing_an_id_and_backend_difference", 1);
+        }
+    }
+    if has_tcp_twins(a) || has_tcp_twins(b) {
+        rep.obs("pairs_with_tcp_or_udp_frontends_sharing_an_address", 1);
+    }
+    let mut only_active = false;
+    let mut one_field = false;
+    macro_rules! listeners {
+        ($m:ident) => {
+            for (k, la) in &a.$m {
+                if let Some(lb) = b.$m.get(k) {
+                    if la != lb {
+                        let mut x = la.clone();
+                        x.active = lb.active;
+                        if &x == lb {
+                            only_active = true;
+                        } else {
+                            let ja = serde_json::to_value(la).unwrap_or(Value::Null);
+                            let jb = serde_json::to_value(lb).unwrap_or(Value::Null);
+                            let n = ja.as_object().map(|o| o.iter().filter(|(k, v)| jb.get(k.as_str()) != Some(*v)).count()).unwrap_or(0);
+                            if n == 1 {
+                                one_field = true;
+                            }
+                        }
+                    }
+                }
+            }
+        };
+    }
+    listeners!(http_listeners);
+    listeners!(https_listeners);
+    listeners!(tcp_listeners);
+    listeners!(udp_listeners);
+    if only_active {
+        rep.obs("pairs_listener_differs_only_in_active", 1);
+    }
+    if one_field {
+        rep.obs("pairs_listener_differs_in_one_field", 1);
+    }
+    for (m, ma, mb) in [("http", &a.http_fronts, &b.http_fronts), ("https", &a.https_fronts, &b.https_fronts)] {
+        for (k, fa) in ma {
+            if let Some(fb) = mb.get(k) {
+                if fa != fb {
+                    rep.obs("pairs_frontend_same_key_other_content", 1);
+                    let mut x = fa.clone();
+                    x.tags = fb.tags.clone();
+                    if &x == fb {
+                        rep.obs(&format!("pairs_{m}_frontend_differs_only_in_tags"), 1);
+                    }
+                    break;
+                }
+            }
+        }
+    }
+    if a.certificates != b.certificates {
+        rep.obs("pairs_with_certificate_difference", 1);
+        let shared_fp_other_content = a.certificates.iter().any(|(addr, ca)| {
+            b.certificates.get(addr).is_some_and(|cb| ca.iter().any(|(fp, c)| cb.get(fp).is_some_and(|o| o != c)))
+        });
+        if shared_fp_other_content {
+            rep.obs("pairs_certificate_same_fingerprint_other_content", 1);
+        }
+    }
+    if a.udp_listeners != b.udp_listeners || a.udp_fronts != b.udp_fronts {
+        rep.obs("pairs_with_udp_difference", 1);
+    }
+    let orphan = |s: &ConfigState| s.backends.iter().any(|(c, v)| !v.is_empty() && !s.clusters.contains_key(c));
+    if orphan(b) && a.clusters.keys().any(|c| !b.clusters.contains_key(c)) {
+        rep.obs("pairs_with_cluster_removed_backends_remain", 1);
+    }
+}
+
+fn check_direction(ctx: &Ctx, rep: &mut Report, p: &Pair, a: &ConfigState, b: &ConfigState) {
+    rep.obs("ordered_pairs", 1);
+    let d = match guard(|| a.diff(b)) {
+        Ok(d) => d,
+        Err(pn) => {
+            if pn.in_sozu() {
+                rep.violation(
+                    &format!("diff/{}", pn.signature()),
+                    &format!("ConfigState::diff panicked: {} at {}", pn.message, pn.location),
+                    witness(ctx, p, a, b, &[], json!({"panic": pn.message, "location": pn.location})),
+                );
+            } else {
+                rep.broken(&format!("harness panic around diff: {} at {}", pn.message, pn.location));
+            }
+            return;
+        }
+    };
+    rep.obs(&format!("diff_length:{}", len_bucket(d.len())), 1);
+    rep.obs_max("diff_length", d.len() as u64);
+    if !d.is_empty() {
+        rep.obs("diff_nonempty", 1);
+    }
+    for r in &d {
+        rep.obs(&format!("emitted:{}", verb(r)), 1);
+    }
+    let mut result = a.clone();
+    let mut rejected_sigs: Vec<String> = Vec::new();
+    for (i, r) in d.iter().enumerate() {
+        if let Err(e) = result.dispatch(r) {
+            let v = verb(r).to_owned();
+            rep.obs("diff_commands_rejected", 1);
+            rep.obs(if has_id_twins(a) || has_id_twins(b) || has_tcp_twins(a) || has_tcp_twins(b) { "diff_commands_rejected:pair_has_twins" } else { "diff_commands_rejected:no_twins" }, 1);
+            if !rejected_sigs.contains(&v) {
+                rejected_sigs.push(v.clone());
+                rep.violation(
+                    &format!("diff/command_rejected/{v}"),
+                    &format!("command #{i} ({v}) of A.diff(B) was rejected by an instance holding A: {e}"),
+                    witness(ctx, p, a, b, &d, json!({"index": i, "verb": v, "error": e.to_string(), "command": req_json(r),
+                        "twins_same_backend_id": has_id_twins(a) || has_id_twins(b), "frontends_sharing_address": has_tcp_twins(a) || has_tcp_twins(b)})),
+                );
+            }
+        } else {
+            rep.obs("diff_commands_accepted", 1);
+        }
+    }
+    let deltas = compare(b, &result, Mode::Loose);
+    let second = guard(|| result.diff(b)).unwrap_or_default();
+    if deltas.is_empty() {
+        rep.obs("target_reached", 1);
+        if !crate::c05_roundtrip::cmp::strictly_equal(b, &result) {
+            rep.obs("target_reached_up_to_empty_buckets_or_bucket_order", 1);
+        }
+        if let Some(first) = second.first() {
+            rep.violation(
+                &format!("diff/second_diff_not_empty/{}", verb(first)),
+                "after applying A.diff(B) the result equals B (empty buckets normalised) but result.diff(B) is not empty",
+                witness(ctx, p, a, b, &d, json!({"second_diff": second.iter().map(req_json).collect::<Vec<_>>()})),
+            );
+        }
+    } else {
+        rep.obs("target_not_reached", 1);
+        let mut seen = Vec::new();
+        for dl in &deltas {
+            // class of the difference, without ids: for a certificate stored under the same
+            // (address, fingerprint) on both sides, say whether the source already held it
+            // (diff compares fingerprints only) or the diff's own AddCertificate altered it
+            let class = if dl.map == "certificates" && dl.kind == "changed" {
+                let held_by_source = flatten_map(a, "certificates", Mode::Loose).contains_key(&(dl.map.clone(), dl.key.clone()));
+                if held_by_source {
+                    "certificates/same_fingerprint_other_content_not_updated".to_owned()
+                } else {
+                    format!("certificates/added_certificate_altered:{}", dl.fields.join(","))
+                }
+            } else {
+                format!("{}/{}", dl.map, dl.kind)
+            };
+            if seen.contains(&class) {
+                continue;
+            }
+            seen.push(class.clone());
+            match dl.map.as_str() {
+                "backends" => rep.obs(if has_id_twins(a) || has_id_twins(b) { "target_not_reached:backends:pair_has_same_id_twins" } else { "target_not_reached:backends:no_twins" }, 1),
+                "tcp_fronts" | "udp_fronts" => rep.obs(if has_tcp_twins(a) || has_tcp_twins(b) { "target_not_reached:tcp_udp_fronts:pair_has_same_address_twins" } else { "target_not_reached:tcp_udp_fronts:no_twins" }, 1),
+                _ => {}
+            }
+            rep.obs(if second.is_empty() { "target_not_reached_and_second_diff_empty" } else { "target_not_reached_and_second_diff_nonempty" }, 1);
+            rep.violation(
+                &format!("diff/target_not_reached/{class}"),
+                &format!("after dispatching A.diff(B) onto A the result differs from B on map {} (key {}, {}); result.diff(B) has {} command(s)", dl.map, dl.key, dl.kind, second.len()),
+                witness(ctx, p, a, b, &d, json!({"expected_is_left": true, "difference": dl.to_json(),
+                    "all_differences": deltas.iter().take(8).map(|x| json!({"map": x.map, "key": x.key, "kind": x.kind, "fields": x.fields})).collect::<Vec<_>>(),
+                    "second_diff": second.iter().take(6).map(req_json).collect::<Vec<_>>(),
+                    "twins_same_backend_id": has_id_twins(a) || has_id_twins(b), "frontends_sharing_address": has_tcp_twins(a) || has_tcp_twins(b)})),
+            );
+        }
+    }
+}
+
+fn check_self(ctx: &Ctx, rep: &mut Report, p: &Pair, a: &ConfigState) {
+    match guard(|| a.diff(a)) {
+        Ok(d) => {
+            rep.obs("self_diffs", 1);
+            if let Some(first) = d.first() {
+                rep.violation(
+                    &format!("diff/self_diff_not_empty/{}", verb(first)),
+                    "A.diff(A) is not empty",
+                    witness(ctx, p, a, a, &d, json!({})),
+                );
+            }
+        }
+        Err(pn) if pn.in_sozu() => rep.violation(
+            &format!("diff/self/{}", pn.signature()),
+            &format!("A.diff(A) panicked: {} at {}", pn.message, pn.location),
+            witness(ctx, p, a, a, &[], json!({"panic": pn.message})),
+        ),
+        Err(pn) => rep.broken(&format!("harness panic around self diff: {}", pn.message)),
+    }
+}
+
+const DIRECTED: u64 = 7;
+
+/// minimal hand-written pairs: (history of A, history of B), both from the empty state
+fn directed(k: u64) -> (Vec<Cmd>, Vec<Cmd>) {
+    use sozu_command_lib::proto::command::{AddBackend, AddCertificate, ReplaceCertificate, RequestTcpFrontend, RequestUdpFrontend, request::RequestType};
+    use crate::c05_roundtrip::{cgen::{req, sa}, cops::fingerprint_hex, fixture_cert};
+    let backend = |addr: &str| AddBackend { cluster_id: "c0".to_owned(), backend_id: "b0".to_owned(), address: sa(addr), sticky_id: None, load_balancing_parameters: None, backup: None };
+    let c = |t: RequestType, l: &str| (req(t), l.to_owned());
+    let a = sa("127.0.0.1:443");
+    let tags = |v: &str| std::collections::BTreeMap::from([("k".to_owned(), v.to_owned())]);
+    match k {
+        // same backend_id at two addresses, one of them removed
+        0 => (
+            vec![c(RequestType::AddBackend(backend("10.0.0.1:8080")), "AddBackend"), c(RequestType::AddBackend(backend("10.0.0.2:8080")), "AddBackend/same_id_other_address")],
+            vec![c(RequestType::AddBackend(backend("10.0.0.2:8080")), "AddBackend")],
+        ),
+        // two tcp frontends on one (cluster, address) with different tags, one of them removed
+        1 => (
+            vec![
+                c(RequestType::AddTcpFrontend(RequestTcpFrontend { cluster_id: "c0".to_owned(), address: a, tags: tags("1") }), "AddTcpFrontend"),
+                c(RequestType::AddTcpFrontend(RequestTcpFrontend { cluster_id: "c0".to_owned(), address: a, tags: tags("2") }), "AddTcpFrontend/same_address_other_tags"),
+            ],
+            vec![c(RequestType::AddTcpFrontend(RequestTcpFrontend { cluster_id: "c0".to_owned(), address: a, tags: tags("1") }), "AddTcpFrontend")],
+        ),
+        2 => (
+            vec![
+                c(RequestType::AddUdpFrontend(RequestUdpFrontend { cluster_id: "c0".to_owned(), address: a, tags: tags("1") }), "AddUdpFrontend"),
+                c(RequestType::AddUdpFrontend(RequestUdpFrontend { cluster_id: "c0".to_owned(), address: a, tags: tags("2") }), "AddUdpFrontend/same_address_other_tags"),
+            ],
+            vec![c(RequestType::AddUdpFrontend(RequestUdpFrontend { cluster_id: "c0".to_owned(), address: a, tags: tags("1") }), "AddUdpFrontend")],
+        ),
+        // the same certificate under two different name overrides
+        3 => (
+            vec![c(RequestType::AddCertificate(AddCertificate { address: a, certificate: fixture_cert(0, &["one.example"]), expired_at: None }), "AddCertificate")],
+            vec![c(RequestType::AddCertificate(AddCertificate { address: a, certificate: fixture_cert(0, &["two.example"]), expired_at: None }), "AddCertificate/same_fingerprint_other_content")],
+        ),
+        // target holds a certificate stored by ReplaceCertificate without explicit names
+        4 => {
+            let c0 = fixture_cert(0, &["x.example"]);
+            let old = fingerprint_hex(&c0);
+            (
+                vec![],
+                vec![
+                    c(RequestType::AddCertificate(AddCertificate { address: a, certificate: c0, expired_at: None }), "AddCertificate"),
+                    c(RequestType::ReplaceCertificate(ReplaceCertificate { address: a, new_certificate: fixture_cert(1, &[]), old_fingerprint: old, new_expired_at: None }), "ReplaceCertificate/existing_new_without_names"),
+                ],
+            )
+        }
+        // both frontends of one (cluster, address) removed
+        6 => (
+            vec![
+                c(RequestType::AddTcpFrontend(RequestTcpFrontend { cluster_id: "c0".to_owned(), address: a, tags: tags("1") }), "AddTcpFrontend"),
+                c(RequestType::AddTcpFrontend(RequestTcpFrontend { cluster_id: "c0".to_owned(), address: a, tags: tags("2") }), "AddTcpFrontend/same_address_other_tags"),
+            ],
+            vec![],
+        ),
+        // same id at two addresses on both sides, parameters of one of them changed
+        _ => {
+            let mut changed = backend("10.0.0.2:8080");
+            changed.backup = Some(true);
+            (
+                vec![c(RequestType::AddBackend(backend("10.0.0.1:8080")), "AddBackend"), c(RequestType::AddBackend(backend("10.0.0.2:8080")), "AddBackend/same_id_other_address")],
+                vec![c(RequestType::AddBackend(backend("10.0.0.1:8080")), "AddBackend"), c(RequestType::AddBackend(changed), "AddBackend/same_id_other_address")],
+            )
+        }
+    }
+}
+
+fn run_directed(ctx: &Ctx, case: u64, rep: &mut Report) {
+    let (ha, hb) = directed(case - DIRECTED_BASE);
+    let mut a = ConfigState::new();
+    let mut b = ConfigState::new();
+    let mut ops_a = Vec::new();
+    let mut ops_b = Vec::new();
+    for c in ha {
+        apply(&mut a, c, &mut ops_a);
+    }
+    for c in hb {
+        apply(&mut b, c, &mut ops_b);
+    }
+    rep.obs("pairs:directed", 1);
+    classify_pair(rep, &a, &b);
+    let fwd = Pair { case, kind: "directed_independent", direction: "A_to_B", history_a: &ops_a, mutation: &ops_b };
+    check_direction(ctx, rep, &fwd, &a, &b);
+    let back = Pair { case, kind: "directed_independent", direction: "B_to_A", history_a: &ops_a, mutation: &ops_b };
+    check_direction(ctx, rep, &back, &b, &a);
+    rep.case(case, true);
+}
+
+fn run_case(ctx: &Ctx, case: u64, rep: &mut Report) {
+    if case >= DIRECTED_BASE {
+        return run_directed(ctx, case, rep);
+    }
+    let fx = fixtures();
+    let mut rng = Rng::for_case(ctx.seed, 6, case);
+    let n_a = rng.urange(0, ctx.tier.pick(40, 80));
+    let density = 1 + rng.below(3);
+    let independent = rng.chance(1, 4);
+    let mut a = ConfigState::new();
+    let mut ops_a = Vec::new();
+    let mut b;
+    let mut ops_b = Vec::new();
+    let kind;
+    {
+        let mut g = G::new(&mut rng, density);
+        extend_history(&mut g, &mut a, &mut ops_a, n_a, fx);
+        if independent {
+            kind = "independent";
+            b = ConfigState::new();
+            let n_b = g.rng.urange(0, 40);
+            extend_history(&mut g, &mut b, &mut ops_b, n_b, fx);
+        } else {
+            kind = "mutation";
+            b = a.clone();
+            let steps = g.rng.urange(1, 4);
+            for _ in 0..steps {
+                let cmds: Vec<Cmd> = if g.rng.chance(7, 10) {
+                    let which = g.rng.below(SCENARIOS);
+                    scenario(&mut g, &b, fx, which)
+                } else {
+                    gen_op(&mut g, &b, fx)
+                };
+                for c in cmds {
+                    let label = c.1.clone();
+                    if apply(&mut b, c, &mut ops_b) {
+                        rep.obs(&format!("mutation:{label}"), 1);
+                    }
+                }
+            }
+        }
+    }
+    count_ops(rep, &ops_a);
+    count_ops(rep, &ops_b);
+    rep.obs(&format!("pairs:{kind}"), 1);
+    if independent {
+        rep.obs("independent_pairs", 1);
+    }
+    classify_pair(rep, &a, &b);
+    let fwd = Pair { case, kind, direction: "A_to_B", history_a: &ops_a, mutation: &ops_b };
+    check_direction(ctx, rep, &fwd, &a, &b);
+    let back = Pair { case, kind, direction: "B_to_A", history_a: &ops_a, mutation: &ops_b };
+    check_direction(ctx, rep, &back, &b, &a);
+    check_self(ctx, rep, &fwd, &a);
+    check_self(ctx, rep, &back, &b);
+
+    let shape: Vec<u8> = ops_a.iter().chain(ops_b.iter()).flat_map(|o| [crate::common::rng::fnv1a(o.label.as_bytes()) as u8, o.ok as u8]).collect();
+    rep.case_bytes(&shape, object_count(&a) + object_count(&b) >= 3 && !crate::c05_roundtrip::cmp::strictly_equal(&a, &b));
+    if case < 3 {
+        rep.sample(json!({"case": case, "kind": kind, "sizes_a": state_sizes(&a), "sizes_b": state_sizes(&b),
+            "mutation": ops_b.iter().take(6).map(|o| json!({"label": o.label, "ok": o.ok})).collect::<Vec<_>>(),
+            "diff_a_to_b": a.diff(&b).iter().map(|r| verb(r).to_owned()).collect::<Vec<_>>()}));
+    }
+}
+
+pub fn run(ctx: &Ctx) -> Report {
+    let mut rep = Report::new(
+        "exploration",
+        "pairs of reachable ConfigStates: A from a random history of 0..40 commands (generator shared with C05); B = A followed by 1..4 mutation steps (70 % scenarios aimed at diff's join keys: same backend_id at two addresses, same address with two ids, backend upsert, listener toggled / patched in one field / replaced at the same address, frontend re-added under the same key with other tags / policies / position / cluster, tcp/udp frontends sharing an address, certificate re-added with the same fingerprint and other content, second certificate on an address, replacement, cluster removed while backends remain, health-check changes, UDP objects; 30 % any history command), or (25 %) B from an independent history; both directions of each pair and both self-diffs are judged; a case is non-trivial when A != B and the pair holds >= 3 objects; distinct = distinct label/outcome sequences",
+    );
+    rep.assume("the order of entries inside a tcp/udp frontend bucket is not configuration: buckets are compared as multisets, empty buckets dropped on both sides (the normalisation the statement names)");
+    for k in [
+        "diff_nonempty",
+        "target_reached",
+        "independent_pairs",
+        "pairs_with_backends_sharing_an_id_and_backend_difference",
+        "pairs_listener_differs_only_in_active",
+        "pairs_listener_differs_in_one_field",
+        "pairs_frontend_same_key_other_content",
+        "pairs_with_certificate_difference",
+        "pairs_certificate_same_fingerprint_other_content",
+        "pairs_with_cluster_removed_backends_remain",
+        "pairs_with_udp_difference",
+        "pairs_with_tcp_or_udp_frontends_sharing_an_address",
+        "self_diffs",
+    ] {
+        rep.require(k);
+    }
+    let gag = StdoutGag::new();
+    if let Some((rctx, cases)) = replay_cases(ctx) {
+        for c in cases {
+            if let Err(p) = guard(|| run_case(&rctx, c, &mut rep)) {
+                rep.broken(&format!("panic while replaying case {c}: {} at {}", p.message, p.location));
+            }
+        }
+        drop(gag);
+        return rep;
+    }
+    for k in 0..DIRECTED {
+        if let Err(p) = guard(|| run_case(ctx, DIRECTED_BASE + k, &mut rep)) {
+            rep.broken(&format!("panic in directed pair {k}: {} at {}", p.message, p.location));
+        }
+    }
+    let n = ctx.opt_u64("cases", ctx.tier.pick(40_000, 1_500_000));
+    par_cases(ctx, &mut rep, n, |i, r| run_case(ctx, i, r));
+    drop(gag);
     rep
 }
